@@ -72,6 +72,13 @@ func runFixturesImpl(root string) error {
 	if !helperFlagged {
 		return fmt.Errorf("LCK engine did not trace the unlocked helper call chain (BadHelperWithoutLock -> bump)")
 	}
+	// REACQ
+	fc.Obs = nil
+	reacquireAudit(fc, "FX-REACQ", []string{"pkg/fixture/lck"})
+	v = verdicts()
+	if err := expect("REACQ", v, []string{"BadReacquire"}, []string{"GoodReleaseFirst", "GoodGet", "Len"}); err != nil {
+		return err
+	}
 	// PAN
 	fc.Obs = nil
 	ifaceEqAudit(fc, "FX-PAN", []string{"pkg/fixture/pan"}, nil)
